@@ -1,6 +1,38 @@
 import TemprenModel.Model.Proto
 import TemprenModel.Model.Path
+import TemprenModel.Model.Count
+import TemprenModel.Model.Hash
+import TemprenModel.Model.AdHoc
 open Tempren Tempren.Proto
+
+def hexNibble (c : Char) : Option Nat :=
+  if '0' ≤ c ∧ c ≤ '9' then some (c.toNat - 48)
+  else if 'a' ≤ c ∧ c ≤ 'f' then some (c.toNat - 87) else none
+
+/-- `h` followed by pairs of lowercase hex digits -/
+def decBytes (f : String) : Option (List UInt8) :=
+  match f.toList with
+  | 'h' :: rest =>
+    let rec go (cs : List Char) (acc : Array UInt8) : Option (List UInt8) :=
+      match cs with
+      | [] => some acc.toList
+      | a :: b :: t =>
+        match hexNibble a, hexNibble b with
+        | some x, some y => go t (acc.push (UInt8.ofNat (x * 16 + y)))
+        | _, _ => none
+      | _ => none
+    go rest #[]
+  | _ => none
+
+def hexByte (b : UInt8) : String :=
+  String.ofList [hexChar (b.toNat / 16), hexChar (b.toNat % 16)]
+
+def encBytes (bs : List UInt8) : String := "h" ++ String.join (bs.map hexByte)
+
+def encCountVal : Option CountVal → String
+  | none => "E"
+  | some (.int n) => "i" ++ toString n
+  | some (.str s) => encStr s
 
 def encPath (p : PurePath) : String := encStr (strPath p)
 
@@ -27,6 +59,47 @@ def handle (line : String) : String :=
       | some p => encPath p
       | none => "ValueError"
     | _, _ => "bad-op"
+  | ["count", start, step, width, common, dirs] =>
+    match decInt start, decInt step, decInt width, decBool common, decList dirs with
+    | some start, some step, some width, some common, some dirs =>
+      match (CountTag.configure start step width common : Option (CountTag String)) with
+      | none => "CFGERR"
+      | some t => encList ((t.run dirs).map encCountVal)
+    | _, _, _, _, _ => "bad-op"
+  | ["chunks", n, len] =>
+    match decNat n, decNat len with
+    | some n, some len => encList ((chunks n (List.replicate len ())).map (fun c => toString c.length))
+    | _, _ => "bad-op"
+  | ["crc32tag", bytes] =>
+    match decBytes bytes with
+    | some bs => encStr (crc32Tag bs)
+    | none => "bad-op"
+  | ["crc32", n, bytes] =>
+    match decNat n, decBytes bytes with
+    | some n, some bs => encStr (hex8 (crc32Chunked n bs)) ++ " " ++ encStr (hex8 (crc32 bs))
+    | _, _ => "bad-op"
+  | ["adhoc", exe, args, dir, rel, ctx, exit, stdout] =>
+    match decStr exe, decStrList args, decStr dir, decStr rel, decOptStr ctx, decStr stdout with
+    | some exe, some args, some dir, some rel, some ctx, some stdout =>
+      let inv := adhocInvoke exe args dir rel ctx
+      let outcome : Option AdhocOutcome :=
+        if exit = "timeout" then some .timeout else (decInt exit).map (fun e => .completed e stdout [])
+      match outcome with
+      | some o =>
+        " ".intercalate [encStrList inv.argv,
+          (match inv.stdin with | none => "n" | some b => encBytes b),
+          encStr inv.cwd, encOptStr (adhocValue o), encStr (adhocRendered o)]
+      | none => "bad-op"
+    | _, _, _, _, _, _ => "bad-op"
+  | ["isspace", lo, hi] =>
+    match decNat lo, decNat hi with
+    | some lo, some hi =>
+      encList (((List.range (hi - lo)).map (· + lo)).filter (fun n => pyIsSpace (Char.ofNat n)) |>.map toString)
+    | _, _ => "bad-op"
+  | ["strip", s] =>
+    match decStr s with
+    | some s => encStr (pyStrip s)
+    | none => "bad-op"
   | _ => "bad-op"
 
 partial def loop (h : IO.FS.Stream) (out : IO.FS.Stream) : IO Unit := do
